@@ -73,6 +73,9 @@ func (s Step) String() string {
 	case "Chmod":
 		return fmt.Sprintf("Chmod(%q,%s)", s.P, fs.FileMode(s.Perm))
 	case "Chtimes":
+		if s.N == 1 {
+			return fmt.Sprintf("Chtimes(%q,atime=zero,%d)", s.P, s.MTime)
+		}
 		return fmt.Sprintf("Chtimes(%q,%d)", s.P, s.MTime)
 	case "H.Read", "H.ReadDir":
 		return fmt.Sprintf("h%d.%s(%d)", s.Slot, s.K[2:], s.N)
@@ -330,7 +333,11 @@ func Exec(fsys hackpadfs.FS, st Step, hs *Handles, mt MTimeSet) (res Result) {
 		fillErr(&res, hackpadfs.Chown(fsys, st.P, 0, 0))
 	case "Chtimes":
 		t := time.Unix(st.MTime, 0)
-		fillErr(&res, hackpadfs.Chtimes(fsys, st.P, t, t))
+		at := t
+		if st.N == 1 {
+			at = time.Time{} // the zero time: "leave the access time alone" for os.Chtimes; the modification time is still set
+		}
+		fillErr(&res, hackpadfs.Chtimes(fsys, st.P, at, t))
 	case "Stat", "Lstat", "LstatOrStat":
 		var info fs.FileInfo
 		var err error
